@@ -28,7 +28,7 @@ class Engine(BaseEngine):
     profiles = ("debug", "release")
     rule = ("malformed stream, deliberately structured: for seed texts (events, filters, tag arrays, hex strings, addresses) - EVERY prefix, "
             "every single-byte substitution by each of {00 22 5C 7F 80 C3 FF ] } , E2 F4 F7} (sampled in quick), every single-byte deletion, "
-            "unknown members nested 1..200000 levels deep (arrays, objects, unbalanced), digit runs of 1..40, every output length 0..needed+16 "
+            "unknown members nested 1..200000 levels deep (arrays, objects, unbalanced), filters with hundreds of members (tag fields of all 52 letters, look-alike #-keys, unknown members), digit runs of 1..40, every output length 0..needed+16 "
             "for complete texts, random byte strings; entry points event/filter/tags from JSON, json_unescape, json_escape, Id/Pubkey/Sig hex, "
             "Addr::try_from_bytes; both build profiles; 64 guard bytes each side of every output buffer. oracle: never panics/aborts/hangs, "
             "consumed <= input length, guards intact, accepted values survive all accessors/serialisers. "
@@ -112,6 +112,23 @@ class Engine(BaseEngine):
             sfx = "-many" if len(ts) > 100 else ""
             out.append(("tags-overflow" + sfx, "tagsjson %s n:80000 n:170" % C.tb(t)))
             out.append(("ev-overflow" + sfx, "evjson %s n:80000 n:170" % C.tb(mini_ev(t))))
+        # filters with MANY members: tag fields of every letter plus keys that merely look like tag fields (#0, #-, #é, ##, #ab, #)
+        # repeated up to a few hundred times, unknown members by the hundred: fixed-size tables indexed by a member count
+        for _ in range(40 if quick else 1500):
+            parts = []
+            letters = [chr(c) for c in list(range(65, 91)) + list(range(97, 123))]
+            rng.shuffle(letters)
+            for L in letters[:rng.choice([0, 5, 26, 51, 52])]:
+                parts.append('"#%s":["v"]' % L)
+            odd = rng.choice(["0", "1", "9", "-", "_", "#", "é", "ab", "", " ", "e "])
+            for j in range(rng.choice([1, 2, 53, 60, 120, 300])):
+                k = odd if rng.random() < 0.7 else rng.choice(["0", "5", "9", "-", "@", "[", "`", "{", "Z9"])
+                parts.append('"#%s":[%s]' % (k, rng.choice(['"v"', '', '"a","b"', '1'])))
+            for j in range(rng.choice([0, 0, 3, 200])):
+                parts.append('"u%d":%s' % (j, rng.choice(["1", "[]", "{}", '"s"', "null"])))
+            rng.shuffle(parts)
+            t = ("{" + ",".join(parts) + "}").encode()
+            out.append(("fl-many-members", "fljson %s n:%d n:170" % (C.tb(t), rng.choice([2000, 40000, 64]))))
         # nesting
         for depth in (1, 2, 10, 127, 128, 129, 130, 1000, 10000, 200000):
             for opener, closer in ((b"[", b"]"), (b'{"a":', b"}"), (b"[", b"")):
